@@ -482,6 +482,7 @@ type Contract struct {
 	File       string
 	Lemmas     []*Clause // proved standalone in function context-less
 	Swept      bool
+	Lets       []LetDef
 }
 
 type ContractSet struct {
@@ -537,7 +538,12 @@ func parseLabel(s string) (props []string, label string, rest string) {
 
 var clauseKeywords = map[string]bool{"func": true, "external": true, "requires": true, "ensures": true, "loop": true,
 	"modifies": true, "pure": true, "mode": true, "safety": true, "assert": true, "panics": true, "specfn": true,
-	"axiom": true, "lemma": true, "inline": true, "option": true, "unroll": true, "typeinv": true, "sweep": true, "uses-global": true}
+	"axiom": true, "lemma": true, "inline": true, "option": true, "unroll": true, "typeinv": true, "sweep": true, "uses-global": true, "let": true}
+
+type LetDef struct {
+	Name string
+	Expr SpecExpr
+}
 
 // loadContracts reads every zz_verif_contracts*.go under dir (non recursive) and
 // additional spec files.
@@ -651,6 +657,17 @@ func loadContractFile(cs *ContractSet, path, pkgPath string) error {
 		case "unroll":
 			n, _ := strconv.Atoi(rest)
 			cur.Unroll = n
+		case "let":
+			// let name = E   (an abbreviation usable in every clause of this contract; evaluated where it is used)
+			kv := strings.SplitN(rest, "=", 2)
+			if len(kv) != 2 || cur == nil {
+				return fail(fmt.Errorf("let needs `name = expression` inside a func contract"))
+			}
+			e, err := parseSpec(strings.TrimSpace(kv[1]))
+			if err != nil {
+				return fail(err)
+			}
+			cur.Lets = append(cur.Lets, LetDef{Name: strings.TrimSpace(kv[0]), Expr: e})
 		case "uses-global":
 			if cur.Options["uses-global"] != "" {
 				cur.Options["uses-global"] += ","
